@@ -34,6 +34,9 @@ func VerifC01Step() {
 	cap := nd.Param("cap", 2)
 	withRange := nd.Choice("schema", 2) == 1
 	c := vClient(withRange)
+	// a secondary index on the attribute w: it changes nothing the map semantics says, and it gives UpdateItem a
+	// second way of being refused after its expression has been applied (an ill-typed index key)
+	nd.Assert(AddIndex(vCtx, c, vTbl, vIdx, "w", "") == nil, "C01-setup-addindex")
 	m := &vModel{withRange: withRange}
 	var universe []vKey
 	for i := 0; i < n; i++ {
@@ -113,8 +116,12 @@ func VerifC01Step() {
 		if withRange {
 			expr = "SET v = :x REMOVE s"
 		}
+		vals := vItem{":x": vS(x)}
+		if nd.Choice("op.refused-for-index-key", 2) == 1 {
+			expr, vals = "SET v = :x, w = :n", vItem{":x": vS(x), ":n": vN("1")}
+		}
 		_, err := c.UpdateItem(vCtx, &dynamodb.UpdateItemInput{TableName: aws.String(vTbl), Key: k.item(withRange),
-			UpdateExpression: aws.String(expr), ExpressionAttributeValues: vItem{":x": vS(x)}})
+			UpdateExpression: aws.String(expr), ExpressionAttributeValues: vals})
 		nd.Assert(err != nil, "C01-update-removing-a-key-attribute-is-rejected")
 	case 7: // an UpdateItem that adds nothing still upserts: REMOVE of an attribute the item may not have
 		nd.Reach("update-remove")
